@@ -899,8 +899,11 @@ fn run_scenario(report: &Report, seed: u64, idx: u64, scn: &Scenario, selftest: 
             plan.push(Inject::DropDuringShutdown(polls));
         }
     }
+    let started = std::time::Instant::now();
     for inj in plan {
-        if !report.time_left() {
+        // a started scenario is enumerated completely (bounded: a few seconds); only a pathological
+        // slowdown cuts it short
+        if started.elapsed().as_secs() > 60 {
             complete = false;
             break;
         }
